@@ -183,7 +183,9 @@ func runStreamHistory(c *fw.Ctx, prop string, rules map[string]bool) {
 			e.Reimport()
 		}
 		if r.Chance(5) {
-			vf := []string{"0", "0.000000000000000001", "0.01", "0.5", "1", "0.333333333333333333", "0.999999999999999999"}
+			// (the last three are just outside [0,1]: the chain must not accept them - and whatever rate
+			// it does accept, the streams must stay claimable and cancellable under it)
+			vf := []string{"0", "0.000000000000000001", "0.01", "0.5", "1", "0.333333333333333333", "0.999999999999999999", "1.005", "1.000000000000000001", "1.009999999999999999"}
 			p := streamtypes.Params{ValidatorFee: sdk.MustNewDecFromStr(vf[r.Intn(len(vf))])}
 			e.Gov("stream fee="+p.ValidatorFee.String(), &streamtypes.MsgUpdateParams{Authority: lab.GovAuthority(), Params: p})
 			c.Count("fee_rate_changes", 1)
